@@ -1,12 +1,301 @@
 import IpaVerif.Model.Util
-/-! Line-protocol handlers for property C07 (model side). Import-free. -/
+import IpaVerif.Model.Sharing
+import IpaVerif.Model.Circuits
+import IpaVerif.Generated.PrimeFields
+import IpaVerif.Generated.C07Consts
+/-! Line-protocol handlers for property C07 (model side) and the spec-side oracle. Import-free. -/
 namespace IpaVerif.Driver.C07
-open IpaVerif.Util
+open IpaVerif.Util IpaVerif.Sharing IpaVerif.Circuits
 
-/-- `some response` if the request belongs to this property, else `none`. -/
-def handle (_toks : List String) : Option String := none
+/-! ### value types -/
 
-/-- Property oracle on (request, implementation response): `some "holds"`, `some "fails <why>"`, or `none`. -/
-def oracle (_toks : List String) (_impl : String) : Option String := none
+/-- carry-less multiplication (`clmul`, portable shift-xor loop). -/
+def clmul (a b : Nat) (bits : Nat) : Nat :=
+  (List.range bits).foldl (fun acc i => if b.testBit i then acc ^^^ (a <<< i) else acc) 0
+
+/-- `Mul for $name` of `bit_array_impl!`: clmul, then the reduction loop over `POLYNOMIAL`. -/
+def gfMul (bits poly a b : Nat) : Nat :=
+  ((List.range (bits - 1)).reverse).foldl
+    (fun prod i => let t := prod >>> (bits + i); prod ^^^ ((poly * t) <<< i)) (clmul a b bits)
+
+def gfAlg (bits poly : Nat) : Alg Nat :=
+  { zero := 0, one := 1, add := fun a b => a ^^^ b, sub := fun a b => a ^^^ b, mul := gfMul bits poly, neg := id }
+
+/-- order ℓ of the Ristretto group = modulus of `Fp25519` (external primitive: curve25519-dalek `Scalar`). -/
+def ell : Nat := 2 ^ 252 + 27742317777372353535851937790883648493
+
+/-- the value type named in a request, as an `Alg Nat` plus its cardinality. -/
+def algOf (name : String) : Option (Alg Nat × Nat) :=
+  match IpaVerif.Generated.primeFields.find? (·.name == name) with
+  | some P => some (modAlg P.p, P.p)
+  | none =>
+    match IpaVerif.Generated.C07.gfFields.find? (·.1 == name) with
+    | some (_, bits, poly) => some (gfAlg bits poly, 2 ^ bits)
+    | none =>
+      if name == "Boolean" then some (gfAlg 1 2, 2)
+      else if name == "Fp25519" then some (modAlg ell, ell)
+      else none
+
+/-- deterministic pseudo-random field elements for the share-level model (any values work: the theorems
+`mul_reconstruct` / `reshare_value` hold for all masks). -/
+def prg (seed i card : Nat) : Nat := ((seed + 1) * 6364136223846793005 + (i + 1) * 1442695040888963407 + seed * i * 2862933555777941757) % card
+
+def shareOf (A : Alg Nat) (card x seed : Nat) : World Nat := share A x (prg seed 1 card) (prg seed 2 card)
+def masksOf (card seed : Nat) : Masks Nat := ⟨prg seed 3 card, prg seed 4 card, prg seed 5 card⟩
+
+def flagStr (b : Bool) : String := if b then "ok" else "inconsistent"
+
+def fieldOp (A : Alg Nat) (card : Nat) (op : String) (arg : Nat) (xs ys : List Nat) : Option String := do
+  let idx := List.range xs.length
+  let run (f : Nat → Nat → Nat → World Nat) : String :=
+    let ws := idx.map (fun i => f i (xs.getD i 0 % card) (ys.getD i 0 % card))
+    showNatList (ws.map (reconstruct A)) ++ " " ++ flagStr (ws.all consistentB)
+  match op with
+  | "mul" => pure (run fun i x y => mulS A (masksOf card (i + x)) (shareOf A card x (3 * i)) (shareOf A card y (3 * i + 1)))
+  | "orf" => pure (run fun i x y => orS A (masksOf card (i + y)) (shareOf A card x (3 * i)) (shareOf A card y (3 * i + 1)))
+  | "reshare" => pure (run fun i x _ => reshareS A (masksOf card (i + 7)) arg (shareOf A card x (5 * i)))
+  | "known" => pure (run fun _ _ _ => knownS A (arg % card))
+  | _ => none
+
+/-! ### Boolean circuits on plaintext bits -/
+
+def mask (n v : Nat) : Nat := v % 2 ^ n
+
+/-- result bits of one lane for a vector op, as a number; `none` = the code panics. -/
+def laneOp (op : String) (n m x y : Nat) : Option Nat :=
+  let xb := bitsOf n x
+  let yb := bitsOf m y
+  match op with
+  | "add" => let r := integerAdd plainAlg [] xb yb; some (val (r.1 ++ [r.2]))
+  | "satadd" => some (val (integerSatAdd plainAlg [] xb yb))
+  | "gt" => some (compareGt plainAlg [] xb yb).toNat
+  | "geq" => some (compareGeq plainAlg [] xb yb).toNat
+  | "sub" => some (val (integerSub plainAlg [] xb yb))
+  | "satsub" => some (val (integerSatSub plainAlg [] xb yb))
+  | "mulint" => (integerMul plainAlg [] xb yb).map val
+  | "or" => (boolOr plainAlg [] xb yb).map val
+  | "and" => (boolAnd8 plainAlg [] xb yb).map val
+  | "vmul" => some (plainAlg.mul [] (x % 2 == 1) (y % 2 == 1)).toNat
+  | _ => none
+
+def outLen (op : String) (n m : Nat) : Nat :=
+  match op with
+  | "add" => n + 1
+  | "satadd" | "sub" | "satsub" | "or" | "and" => n
+  | "mulint" => n + m
+  | _ => 1
+
+def panicMsg (op : String) (n m : Nat) : String :=
+  match op with
+  | "mulint" => "panic:attempt to subtract with overflow"
+  | "and" => if n ≠ m then "panic:assertion" else "panic:Up to 8 bit values are supported"
+  | _ => "panic:assertion"
+
+def vecOp (op : String) (n m : Nat) (xs ys : List Nat) : String :=
+  let rs := (List.range xs.length).map (fun i => laneOp op n m (xs.getD i 0) (ys.getD i 0))
+  -- the code panics independently of the operand values (lengths only)
+  match laneOp op n m 0 0 with
+  | none => panicMsg op n m
+  | some _ =>
+    let vs := rs.map (·.getD 0)
+    if op == "add" then
+      s!"{n + 1} {showNatList (vs.map (mask n))} {showNatList (vs.map (· / 2 ^ n))} ok"
+    else
+      let len := if op == "mulint" then ((integerMul plainAlg [] (bitsOf n 0) (bitsOf m 0)).getD []).length else outLen op n m
+      s!"{len} {showNatList vs} ok"
+
+/-- transpose rows (each a list of column values) into columns; missing entries are 0. -/
+def column (rows : List (List Nat)) (c : Nat) : List Nat := rows.map (·.getD c 0)
+
+def aggOp (w tv : Nat) (rows : List (List Nat)) (cols : Nat) : String :=
+  let vs := (List.range cols).map (fun c =>
+    val (aggregateValues plainAlg [] w ((column rows c).map (bitsOf tv))))
+  s!"{w} {showNatList vs} ok"
+
+def parseRows (s : String) : Option (List (List Nat)) :=
+  if s = "-" then some [] else (s.splitOn "/").mapM parseNatList
+
+def handle (toks : List String) : Option String :=
+  match toks with
+  | ["c07.mul", f, xs, ys] | ["c07.orf", f, xs, ys] => some <| (do
+      let (A, card) ← algOf f
+      fieldOp A card ((toks.headD "").drop 4).toString 0 (← parseNatList xs) (← parseNatList ys)).getD "bad-request"
+  | ["c07.known", f, v] => some <| (do
+      let (A, card) ← algOf f
+      fieldOp A card "known" (← v.toNat?) [0] [0]).getD "bad-request"
+  | ["c07.reshare", f, to, xs] => some <| (do
+      let (A, card) ← algOf f
+      fieldOp A card "reshare" (← to.toNat?) (← parseNatList xs) []).getD "bad-request"
+  | ["c07.vmul", _mode, _w, xs, ys] => some <| (do
+      pure (vecOp "vmul" 1 1 (← parseNatList xs) (← parseNatList ys))).getD "bad-request"
+  | [op, _mode, _w, n, m, xs, ys] =>
+      if op ∈ ["c07.add", "c07.satadd", "c07.gt", "c07.mulint", "c07.or", "c07.and"] then some <| (do
+        pure (vecOp (op.drop 4).toString (← n.toNat?) (← m.toNat?) (← parseNatList xs) (← parseNatList ys))).getD "bad-request"
+      else none
+  | ["c07.agg", _mode, b, w, tv, rows] => some <| (do
+      let rows ← parseRows rows
+      let b ← b.toNat?
+      let cols := match rows with | [] => b | r :: _ => min r.length b
+      pure (aggOp (← w.toNat?) (← tv.toNat?) rows cols)).getD "bad-request"
+  | [op, _mode, n, m, xs, ys] =>
+      if op ∈ ["c07.sub", "c07.geq"] then some <| (do
+        let xs ← parseNatList xs
+        let n ← n.toNat?
+        -- the reported length is that of the last record's output (0 when there are no records)
+        let r := vecOp (op.drop 4).toString n (← m.toNat?) xs (← parseNatList ys)
+        pure (if xs.isEmpty then s!"0 - ok" else r)).getD "bad-request"
+      else if op == "c07.select" then some <| (do
+        -- c07.select mode w conds ts fs
+        let w ← n.toNat?
+        let cs ← parseNatList m
+        let ts ← parseNatList xs
+        let fs ← parseNatList ys
+        let vs := (List.range ts.length).map (fun i =>
+          val (select plainAlg [] (cs.getD i 0 % 2 == 1) (bitsOf w (ts.getD i 0)) (bitsOf w (fs.getD i 0))))
+        pure s!"{showNatList vs} ok").getD "bad-request"
+      else none
+  | ["c07.satsub", _mode, w, xs, ys] => some <| (do
+      let w ← w.toNat?
+      let xs ← parseNatList xs
+      let ys ← parseNatList ys
+      let vs := (List.range xs.length).map (fun i => (laneOp "satsub" w w (xs.getD i 0) (ys.getD i 0)).getD 0)
+      pure s!"{showNatList vs} ok").getD "bad-request"
+  | _ => none
+
+/-! ### spec-side oracle: plain arithmetic, independent of the circuit model -/
+
+def natsOf (s : String) : Option (List Nat) := parseNatList s
+
+def checkAll (n : Nat) (f : Nat → Option String) : Option String :=
+  (List.range n).findSome? f
+
+/-- expected value of lane op by plain arithmetic. -/
+def specLane (op : String) (n m x y : Nat) : Nat :=
+  let x := x % 2 ^ n
+  let y' := (y % 2 ^ m) % 2 ^ n
+  match op with
+  | "satadd" => min (x + y') (2 ^ n - 1)
+  | "gt" => if x > y' then 1 else 0
+  | "geq" => if x ≥ y' then 1 else 0
+  | "sub" => (x + 2 ^ n - y') % 2 ^ n
+  | "satsub" => x - y'
+  | "or" => x ||| (y % 2 ^ m)
+  | "and" => x &&& (y % 2 ^ m)
+  | "vmul" => (x % 2) * (y % 2)
+  | "mulint" =>
+      let y := y % 2 ^ m
+      let ysext := if m > 0 ∧ y ≥ 2 ^ (m - 1) then y + (2 ^ (n + m) - 2 ^ m) else y
+      (x * ysext) % 2 ^ (n + m)
+  | _ => 0
+
+def verdict (r : Option (Option String)) : Option String :=
+  match r with
+  | some none => some "holds"
+  | some (some why) => some ("fails " ++ why)
+  | none => some "unknown"
+
+def flagOk (impl : List String) : Option String :=
+  if impl.getLast? == some "ok" then none else some "output sharing not consistent between adjacent helpers"
+
+def oracleVec (op : String) (n m : Nat) (xs ys : List Nat) (impl : String) : Option (Option String) :=
+  let parts := impl.splitOn " "
+  if impl.startsWith "panic" then
+    -- panics are specified only for length preconditions
+    let expected := (op == "mulint" && m == 0) || ((op == "or" || op == "and") && n ≠ m) || (op == "and" && n > 8)
+    some (if expected then none else some s!"unexpected {impl}")
+  else if impl.startsWith "timeout" then some (some "timeout")
+  else if op == "add" then
+    match parts with
+    | [len, sums, carries, _] => do
+      let sums ← natsOf sums
+      let carries ← natsOf carries
+      let len ← len.toNat?
+      if len ≠ n + 1 ∨ sums.length ≠ xs.length then pure (some s!"wrong output shape") else
+      pure <| (flagOk parts).orElse fun _ => checkAll xs.length fun i =>
+        let x := xs.getD i 0 % 2 ^ n
+        let y' := (ys.getD i 0 % 2 ^ m) % 2 ^ n
+        if sums.getD i 0 + 2 ^ n * carries.getD i 0 == x + y' ∧ sums.getD i 0 < 2 ^ n then none
+        else some s!"lane {i}: x={x} y={ys.getD i 0} sum={sums.getD i 0} carry={carries.getD i 0}, expected sum+2^{n}*carry = {x + y'}"
+    | _ => none
+  else
+    match parts with
+    | [len, vals, _] => do
+      let vals ← natsOf vals
+      let len ← len.toNat?
+      -- (`integer_mul` with an empty `x` returns fewer than `n + m` bits, all zero: only the value is specified)
+      if (vals.length ≠ xs.length) ∨ (len ≠ outLen op n m ∧ ¬ xs.isEmpty ∧ ¬ (op == "mulint" ∧ n == 0)) then pure (some "wrong output shape") else
+      pure <| (flagOk parts).orElse fun _ => checkAll xs.length fun i =>
+        let e := specLane op n m (xs.getD i 0) (ys.getD i 0)
+        if vals.getD i 0 == e then none
+        else some s!"{op} n={n} m={m} lane {i}: x={xs.getD i 0} y={ys.getD i 0} got {vals.getD i 0}, expected {e}"
+    | _ => none
+
+def oracleField (name op : String) (arg : Nat) (xs ys : List Nat) (impl : String) : Option (Option String) := do
+  let (A, card) ← algOf name
+  let parts := impl.splitOn " "
+  match parts with
+  | [vals, _] =>
+    let vals ← natsOf vals
+    if vals.length ≠ xs.length then pure (some "wrong output shape") else
+    pure <| (flagOk parts).orElse fun _ => checkAll xs.length fun i =>
+      let x := xs.getD i 0 % card
+      let y := ys.getD i 0 % card
+      let e := match op with
+        | "mul" => A.mul x y
+        | "orf" => if x = 1 ∨ y = 1 then 1 else 0
+        | "reshare" => x
+        | _ => arg % card
+      if vals.getD i 0 == e then none else some s!"{name} {op} #{i}: a={x} b={y} got {vals.getD i 0}, expected {e}"
+  | _ => none
+
+def oracle (toks : List String) (impl : String) : Option String :=
+  match toks with
+  | ["c07.mul", f, xs, ys] | ["c07.orf", f, xs, ys] => verdict (do
+      oracleField f ((toks.headD "").drop 4).toString 0 (← natsOf xs) (← natsOf ys) impl)
+  | ["c07.known", f, v] => verdict (do oracleField f "known" (← v.toNat?) [0] [0] impl)
+  | ["c07.reshare", f, _to, xs] => verdict (do oracleField f "reshare" 0 (← natsOf xs) [] impl)
+  | ["c07.vmul", _mode, _w, xs, ys] => verdict (do oracleVec "vmul" 1 1 (← natsOf xs) (← natsOf ys) impl)
+  | [op, _mode, _w, n, m, xs, ys] =>
+      if op ∈ ["c07.add", "c07.satadd", "c07.gt", "c07.mulint", "c07.or", "c07.and"] then verdict (do
+        oracleVec (op.drop 4).toString (← n.toNat?) (← m.toNat?) (← natsOf xs) (← natsOf ys) impl)
+      else none
+  | ["c07.agg", _mode, b, w, tv, rows] => verdict (do
+      let rows ← parseRows rows
+      let b ← b.toNat?
+      let w ← w.toNat?
+      let tv ← tv.toNat?
+      let cols := match rows with | [] => b | r :: _ => min r.length b
+      match impl.splitOn " " with
+      | [len, vals, fl] =>
+        let vals ← natsOf vals
+        if vals.length ≠ cols ∨ len.toNat? ≠ some w then pure (some "wrong output shape") else
+        if tv > w then none else
+        pure <| (flagOk [fl]).orElse fun _ => checkAll cols fun c =>
+          let s := (column rows c).foldl (fun a v => a + v % 2 ^ tv) 0
+          let e := min s (2 ^ w - 1)
+          if vals.getD c 0 == e then none else some s!"aggregate column {c}: values {column rows c} got {vals.getD c 0}, expected min(sum, 2^{w}-1) = {e}"
+      | _ => none)
+  | [op, _mode, n, m, xs, ys] =>
+      if op ∈ ["c07.sub", "c07.geq"] then verdict (do
+        oracleVec (op.drop 4).toString (← n.toNat?) (← m.toNat?) (← natsOf xs) (← natsOf ys) impl)
+      else if op == "c07.select" then verdict (do
+        let w ← n.toNat?
+        let cs ← natsOf m
+        let ts ← natsOf xs
+        let fs ← natsOf ys
+        match impl.splitOn " " with
+        | [vals, fl] =>
+          let vals ← natsOf vals
+          if vals.length ≠ ts.length then pure (some "wrong output shape") else
+          pure <| (flagOk [fl]).orElse fun _ => checkAll ts.length fun i =>
+            let e := (if cs.getD i 0 % 2 == 1 then ts.getD i 0 else fs.getD i 0) % 2 ^ w
+            if vals.getD i 0 == e then none else some s!"select #{i}: cond={cs.getD i 0} t={ts.getD i 0} f={fs.getD i 0} got {vals.getD i 0}"
+        | _ => none)
+      else none
+  | ["c07.satsub", _mode, w, xs, ys] => verdict (do
+      let w ← w.toNat?
+      -- same shape as a vector op without the length field
+      oracleVec "satsub" w w (← natsOf xs) (← natsOf ys) (if impl.startsWith "panic" ∨ impl.startsWith "timeout" then impl else s!"{w} {impl}"))
+  | _ => none
 
 end IpaVerif.Driver.C07
